@@ -148,7 +148,7 @@ STAGES = {
           ("Select", "{v}.Jets().Select(lambda j: j.Tracks().Where(lambda t: t.pt() > 0).Count())", "Is"),
           ("Select", "len({v}.Jets())", "I"),
           # and / or in value position on non-boolean operands (Python returns an operand)
-          ("Select", "{v}.Jets().Count() and True", "U"), ("Select", "{v}.met() or 5.0", "F"),
+          ("Select", "{v}.Jets().Count() and True", "U"), ("Select", "{v}.met() or 5.0", "Fb"),
           ("Select", "({v}.Jets().Count() and {v}.met()) + 1", "F"),
           ("Select", "ratio({v}.met(), b={v}.Jets().Count())", "F"),
           ("Select", "(lambda m: m * m + OFFSET)({v}.met())", "F"),
@@ -173,6 +173,9 @@ STAGES = {
           ("Select", "ratio({v} + {v}, b=(3.0 if 0 < 1 else {v}))", "F"),
           ("Select", "(lambda w: ratio({v}, b=w))(add_offset({v}))", "F"),
           ("Where", "ratio({v}, b=-1.0) >= ({v} + OFFSET) or {v} != 3.0", "F")],
+    # a float that the library types bool (result of a value-position and/or, C08): usable as an
+    # operand, not as a conditional's branch next to a float (designed refusal, C10)
+    "Fb": [("Select", "{v} + 1.5", "F"), ("Where", "{v} > 0", "Fb"), ("Select", "add_offset({v})", "F")],
     "I": [("Select", "{v} + 1", "I"), ("Where", "{v} > 0", "I")],
     "TFI": [("Select", "{v}[0] + {v}[1]", "F"), ("Where", "{v}[1] > 0", "TFI"), ("Select", "{v}[1]", "I")],
     "TFF": [("Select", "{v}[0] * {v}[1]", "F"), ("Where", "{v}[0] > {v}[1]", "TFF")],
@@ -214,7 +217,11 @@ class RandBody:
     def vars(self, scope, kind):
         return [n for n, k in scope if k == kind]
 
-    def flt(self, scope, d):
+    def flt(self, scope, d, operand=False):
+        """a float-valued expression.  The library types `and` / `or` as bool (C08) and refuses a
+        conditional whose branches are bool and float (a designed refusal, C10), so a value-position
+        and/or is only generated as an OPERAND (of arithmetic or a comparison), never where its
+        library type would become the type of a branch, a variable or a stage result."""
         r = self.rng
         opts = [lambda: repr(float(r.randint(-2, 4)))]
         for n in self.vars(scope, "F"):
@@ -227,9 +234,10 @@ class RandBody:
             opts += [lambda n=n: f"{n}.pt()"] * 2
         if d > 0:
             opts += [lambda: self._bin(scope, d - 1), lambda: self._cond(scope, d - 1),
-                     lambda: self._valbool(scope, d - 1),
                      lambda: self._proj(scope, d - 1), lambda: self._called(scope, d - 1),
                      lambda: self._of_first(scope, d - 1)]
+            if operand:
+                opts += [lambda: self._valbool(scope, d - 1)] * 2
             if self.captures:
                 opts += [lambda: f"add_offset({self.flt(scope, d - 1)})",
                          lambda: f"({self.flt(scope, d - 1)} + OFFSET)",
@@ -237,14 +245,14 @@ class RandBody:
         return self.pick(opts)
 
     def _bin(self, scope, d):
-        a, b = self.flt(scope, d), self.flt(scope, d)
+        a, b = self.flt(scope, d, operand=True), self.flt(scope, d, operand=True)
         return None if None in (a, b) else f"({a} {self.rng.choice(['+', '-', '*'])} {b})"
 
     def _valbool(self, scope, d):
         a, b = self.flt(scope, d), self.flt(scope, d)
         if None in (a, b):
             return None
-        return self.rng.choice([f"({a} and {b})", f"({a} or {b})", f"(({a} and True) + 0.0)",
+        return self.rng.choice([f"({a} and {b})", f"({a} or {b})", f"({a} and True)",
                                 f"({a} or 1.0)"])
 
     def _cond(self, scope, d):
@@ -281,7 +289,7 @@ class RandBody:
     def boo(self, scope, d):
         r = self.rng
         if r.random() < 0.5:
-            a, b = self.flt(scope, max(d - 1, 0)), self.flt(scope, max(d - 1, 0))
+            a, b = self.flt(scope, max(d - 1, 0), operand=True), self.flt(scope, max(d - 1, 0), operand=True)
         else:
             a, b = self.intx(scope, max(d - 1, 0)), self.intx(scope, max(d - 1, 0))
         if a is None or b is None:
@@ -361,10 +369,12 @@ class RandBody:
             return None
         scope = [(v, kind)]
         r = self.rng
-        what = r.choice(["F", "F", "I", "B", "seqJ", "seqT", "seqF", "many"])
+        what = r.choice(["F", "F", "I", "B", "seqJ", "seqT", "seqF", "many", "Fb"])
         body = out = op = None
         if what == "F":
             body, op, out = self.flt(scope, d), "Select", "F"
+        elif what == "Fb":
+            body, op, out = self._valbool(scope, d), "Select", "Fb"
         elif what == "I":
             body, op, out = self.intx(scope, d), "Select", "I"
         elif what == "B":
